@@ -10,14 +10,24 @@
 (*   TableAggregator: per-row cell maps + redundant row sums and column totals;   *)
 (*                    Trim as the nested loop over columns x rows, in every       *)
 (*                    iteration order of the two maps                             *)
-(*   MatchNumerical : the value list, sorted by Analyze; order statistics by index*)
+(*   MatchNumerical : the value list, sorted IN PLACE by Analyze; order statistics *)
+(*                    by index                                                     *)
+(* Accessor calls are explicit steps (Observe): they leave the abstract state      *)
+(* alone but may touch the implementation state - Analyze re-orders the value      *)
+(* list, and with Memo # "none" ComputeMinMax stores its result.  Sim must hold     *)
+(* after every interleaving of Sample / Trim / Observe.                             *)
 EXTENDS Aggregators
 
 CONSTANTS Which,      \* "ctr" | "sub" | "tbl" | "num" | "acc" : the aggregator under test
           Profile,    \* alphabet selector
           MaxLen,     \* bound on the number of steps
-          TrimFixed   \* TRUE: Trim keeps a column only if a PRESENT cell was kept (code after the fix)
+          TrimFixed,  \* TRUE: Trim keeps a column only if a PRESENT cell was kept (code after the fix)
                       \* FALSE: the original code (kept it when the predicate was false on an absent cell)
+          Memo        \* "none" : ComputeMinMax recomputes on every call (the code as written)
+                      \* "ok"   : a memoising variant that drops the stored value in SampleItem AND Trim -
+                      \*          a behaviour-preserving refactoring, Sim must still hold
+                      \* "stale": dropped in SampleItem only - Sim must FAIL (negative control:
+                      \*          sample, observe, trim, observe)
 
 VARIABLES cm, sk, tb, nm, len
 ivars == <<cm, sk, tb, nm, len>>
@@ -28,6 +38,16 @@ bA == <<97>>   bB == <<98>>   bX == <<120>>   bY == <<121>>   bE == <<>>
 b2 == <<50>>   bM1 == <<45, 49>>   bM2 == <<45, 50>>   b0 == <<48>>   bZZ == <<122, 122>>   bP3 == <<43, 51>>
 El(parts) == JoinSeq(parts, <<NUL>>)
 
+\* numerical profiles >= 2: every value lies near a large base (in units)
+MCBaseText ==
+  IF Which # "num" THEN <<48>>
+  ELSE CASE Profile = 2 -> <<49, 55, 48, 48, 48, 48, 48, 48, 48, 48>>                 \* 1700000000 (epoch seconds)
+         [] Profile = 3 -> <<45, 51, 48, 48, 48, 48, 48, 48, 48, 48, 48>>             \* -3000000000
+         [] Profile = 4 -> <<49, 48, 48, 48, 48, 48, 48, 48, 48, 48, 48>>             \* 10000000000
+         [] Profile = 5 -> <<49, 54, 55, 55, 55, 50, 49, 54>>                         \* 16777216 = 2^24
+         [] OTHER -> <<48>>
+MCBase == BaseOfText(MCBaseText)
+
 MCElems ==
   CASE Which = "ctr" /\ Profile = 1 ->
          {El(<<k>>) : k \in {bA, bB, bE}}
@@ -36,16 +56,19 @@ MCElems ==
     [] Which = "ctr" -> {El(<<k>>) : k \in {bA, bB, bE}} \cup {El(<<k, i>>) : k \in {bA, bB, bE}, i \in {bM1, bZZ}}
     [] Which = "sub" /\ Profile = 1 ->
          {El(<<k>>) : k \in {bA, bB}} \cup {El(<<k, s>>) : k \in {bA, bB}, s \in {bX, bY, bE}}
-         \cup {El(<<k, s, i>>) : k \in {bA, bB}, s \in {bX, bY, bE}, i \in {b2, bM1, bE}}
+         \cup {El(<<k, s, i>>) : k \in {bA, bB}, s \in {bX, bY, bE}, i \in {b2, b0, bZZ}}
     [] Which = "sub" -> {El(<<k, s>>) : k \in {bA, bB}, s \in {bX, bY, bE}}
                         \cup {El(<<k, s, bM2>>) : k \in {bA, bB}, s \in {bX, bY, bE}}
     [] Which = "tbl" /\ Profile = 1 ->
          {El(<<c>>) : c \in {bA, bB}} \cup {El(<<c, r>>) : c \in {bA, bB}, r \in {bX, bE}}
-         \cup {El(<<c, r, i>>) : c \in {bA, bB}, r \in {bX, bE}, i \in {b2, bM1, bZZ}}
+         \cup {El(<<c, r, i>>) : c \in {bA, bB}, r \in {bX, bE}, i \in {b2, b0, bZZ}}
     [] Which = "tbl" -> {El(<<c, r>>) : c \in {bA, bB}, r \in {bX, bY}}
                         \cup {El(<<c, r, bM1>>) : c \in {bA, bB}, r \in {bX, bY}}
-    [] Which = "num" -> {<<49>>, <<50>>, <<45, 49, 46, 53>>, <<50, 46, 50, 53>>, <<48>>, bZZ, bE,
+    [] Which = "num" /\ Profile = 1 ->
+                        {<<49>>, <<50>>, <<45, 49, 46, 53>>, <<50, 46, 50, 53>>, <<48>>, bZZ, bE,
                          <<49, 46, 48>>, <<46, 53>>}
+    \* large offset, small spread: the texts of base + delta
+    [] Which = "num" -> {NumText(BAdd(MCBase, BI(d))) : d \in {0, 1000, 1500, 3000, -750, 2250}} \cup {bZZ}
     [] Which = "acc" -> {El(<<bA, b2>>), El(<<bB, bM1>>), El(<<bA, bZZ>>), El(<<bA>>), El(<<bE, <<53>>>>),
                          El(<<bB, <<51>>, bX>>)}
 
@@ -97,11 +120,14 @@ SkSample(s, el) ==
      ELSE SkSampleValue(s, key, subkey, 1)
 
 \* ---------------------------------------------------------- TableAggregator
-TbInit == [cols |-> EmptyFn, rows |-> EmptyFn, errors |-> 0]
+\* mm: the min/max remembered by a memoising ComputeMinMax (never valid when Memo = "none")
+NoMM == [valid |-> FALSE, v |-> <<0, 0>>]
+TbInit == [cols |-> EmptyFn, rows |-> EmptyFn, errors |-> 0, mm |-> NoMM]
 TbSampleItem(s, col, row, n) ==
   LET r0 == IF row \in DOMAIN s.rows THEN s.rows[row] ELSE [cells |-> EmptyFn, sum |-> 0]
       r1 == [cells |-> Upd(r0.cells, col, Get0(r0.cells, col) + n), sum |-> r0.sum + n]
-  IN [cols |-> Upd(s.cols, col, Get0(s.cols, col) + n), rows |-> Upd(s.rows, row, r1), errors |-> s.errors]
+  IN [cols |-> Upd(s.cols, col, Get0(s.cols, col) + n), rows |-> Upd(s.rows, row, r1), errors |-> s.errors,
+      mm |-> NoMM]
 TbSample(s, el) ==
   LET p == Parts(el) IN
   IF Len(p) >= 3
@@ -128,27 +154,37 @@ TrimColLoop(s, p, co, ro, j) ==
   IF j > Len(co) THEN s
   ELSE LET r == TrimRowLoop(s.rows, p, co[j], ro, 1, FALSE)
        IN TrimColLoop([cols |-> IF r.keep THEN s.cols ELSE Without(s.cols, co[j]), rows |-> r.rows,
-                       errors |-> s.errors], p, co, ro, j + 1)
-TbTrim(s, p, co, ro) == TrimColLoop(s, p, co, ro, 1)
+                       errors |-> s.errors, mm |-> s.mm], p, co, ro, j + 1)
+TbTrim(s, p, co, ro) ==
+  LET t == TrimColLoop(s, p, co, ro, 1) IN IF Memo = "stale" THEN t ELSE [t EXCEPT !.mm = NoMM]
 
 TbValue(s, row, col) == Get0(s.rows[row].cells, col)
 TbSum(s) == SumF(DOMAIN s.cols, s.cols)
-TbMinMax(s) ==
+TbMinMaxScan(s) ==
   LET V == {TbValue(s, r, c) : r \in DOMAIN s.rows, c \in DOMAIN s.cols}
   IN IF V = {} THEN <<0, 0>> ELSE <<MinOf(V), MaxOf(V)>>
+\* ComputeMinMax(): what the caller gets ...
+TbMinMax(s) == IF Memo # "none" /\ s.mm.valid THEN s.mm.v ELSE TbMinMaxScan(s)
+\* ... and what the call leaves behind
+TbObserve(s) == IF Memo = "none" THEN s ELSE [s EXCEPT !.mm = [valid |-> TRUE, v |-> TbMinMax(s)]]
+TbCore(s) == [cols |-> s.cols, rows |-> s.rows, errors |-> s.errors]
 
 \* ----------------------------------------------------------- MatchNumerical
 NmInit == [values |-> <<>>, errors |-> 0]
 NmSample(s, el) ==
-  LET d == NumParse(el) IN
+  LET d == NumParseB(el, MCBase) IN
   IF d.c = "num" THEN [s EXCEPT !.values = Append(@, d.v)]
   ELSE IF d.c = "err" THEN [s EXCEPT !.errors = @ + 1] ELSE s
+\* the instance's Reverse setting (fixed at construction): ascending for profile 1
+NmReverse == Which = "num" /\ Profile % 2 = 0
 NmOrdered(s, rev) == IF rev THEN SortSeq(s.values, LAMBDA a, b : a > b) ELSE SortSeq(s.values, LAMBDA a, b : a < b)
 NmMedian(s, rev) == NmOrdered(s, rev)[Len(s.values) \div 2 + 1]
 NmQuantile(s, p3, rev) ==
   LET n == Len(s.values)
       i == (n * p3) \div 1000
   IN NmOrdered(s, rev)[(IF i >= n THEN n - 1 ELSE i) + 1]
+\* Analyze() sorts the kept values in place (later samples are appended to the sorted list)
+NmAnalyze(s) == [s EXCEPT !.values = NmOrdered(s, NmReverse)]
 \* Mode(): first longest run of the ordered series
 NmMode(s, rev) ==
   LET o == NmOrdered(s, rev)
@@ -165,16 +201,22 @@ Sample(el) ==
   CASE Which = "ctr" -> ASampleCtr(el) /\ cm' = CmSample(cm, el) /\ UNCHANGED <<sk, tb, nm>>
     [] Which = "sub" -> ASampleSub(el) /\ sk' = SkSample(sk, el) /\ UNCHANGED <<cm, tb, nm>>
     [] Which = "tbl" -> ASampleTbl(el) /\ tb' = TbSample(tb, el) /\ UNCHANGED <<cm, sk, nm>>
-    [] Which = "num" -> ASampleNum(el) /\ nm' = NmSample(nm, el) /\ UNCHANGED <<cm, sk, tb>>
+    [] Which = "num" -> ASampleNumB(el, MCBase) /\ nm' = NmSample(nm, el) /\ UNCHANGED <<cm, sk, tb>>
     [] Which = "acc" -> ASampleAcc(el) /\ UNCHANGED <<cm, sk, tb, nm>>
 \* the two map iterations of Trim may run in any order
 Trim(p) ==
   /\ Which = "tbl" /\ ATrimTbl(p)
   /\ \E co \in SetToSeqs(DOMAIN tb.cols), ro \in SetToSeqs(DOMAIN tb.rows) : tb' = TbTrim(tb, p, co, ro)
   /\ UNCHANGED <<cm, sk, nm>>
+\* reading every public accessor: a stuttering step of the abstract machine
+Observe ==
+  /\ AObserve
+  /\ tb' = (IF Which = "tbl" THEN TbObserve(tb) ELSE tb)
+  /\ nm' = (IF Which = "num" THEN NmAnalyze(nm) ELSE nm)
+  /\ UNCHANGED <<cm, sk>>
 Next ==
   /\ len < MaxLen /\ len' = len + 1
-  /\ (\E el \in Elems : Sample(el)) \/ (\E p \in Preds : Trim(p))
+  /\ (\E el \in Elems : Sample(el)) \/ (\E p \in Preds : Trim(p)) \/ Observe
 Spec == Init /\ [][Next]_vars
 
 \* -------------------------------------------- simulation relation / invariants
@@ -229,6 +271,22 @@ ISqrtB(n, lo, hi) ==      \* lo^2 <= n < hi^2
   IF hi = lo + 1 THEN lo
   ELSE LET mid == (lo + hi) \div 2 IN IF mid * mid <= n THEN ISqrtB(n, mid, hi) ELSE ISqrtB(n, lo, mid)
 ISqrt(n) == ISqrtB(n, 0, 46341)
+\* large values: the delta state determines the moments of the full values (exact arithmetic;
+\* besides the model's base also bases far beyond 32 bits and of either sign)
+ShiftLaw ==
+  \A B \in {MCBase, BaseOfText(<<49, 55, 48, 48, 48, 48, 48, 48, 48, 48>>),
+            BaseOfText(<<45, 57, 57, 57, 57, 57, 57, 57, 57, 57, 57, 57>>), BI(-1)} : ShiftLawAt(num, B)
+\* any two samples commute, read relative to the model's base
+CommuteB == CommuteAt(MCBase)
+CommuteLe3 == len <= 3 => CommuteB       \* (the costly law on the shallower states of a deep run)
+\* text <-> value: every generated text reads back as its delta, in either spelling
+TextLaw ==
+  len = 0 =>        \* (a law of constants: evaluated once)
+  \A d \in {0, 1, -1, 999, 1000, -1000, 1500, 12345678, -999999999, 999999999} :
+    LET b == BAdd(MCBase, BI(d)) IN
+    /\ NumLex(NumText(b)).c = "num" /\ BEq(NumLex(NumText(b)).b, b)
+    /\ NumParseB(NumText(b), MCBase) = [c |-> "num", v |-> d]
+    /\ (b.s >= 0 => NumParseB(<<43>> \o NumText(b), MCBase) = [c |-> "num", v |-> d])
 MomentsOK ==
   /\ num.n >= 1 =>
        LET m == BToInt(num.s1) \div num.n IN MeanOK(num, m) /\ ~MeanOK(num, m + 3) /\ ~MeanOK(num, m - 2)
@@ -236,6 +294,10 @@ MomentsOK ==
        LET v == BToInt(NumVar(num)[1]) \div BToInt(NumVar(num)[2])
            r == ISqrt(v)
        IN SdOK(num, r) /\ ~SdOK(num, r + 4) /\ (r >= 4 => ~SdOK(num, r - 4))
+
+\* (the costly numerical laws on the shallower states of a deep run)
+ShiftLawLe3 == len <= 3 => ShiftLaw
+NumLawsLe3 == len <= 3 => (OrderStats /\ MomentsOK /\ ShiftLaw /\ CommuteB)
 
 Sim == SimCtr /\ SkAligned /\ SimSub /\ SimTbl /\ TbRedundancy /\ SimNum
 =============================================================================
